@@ -179,6 +179,8 @@ def evaluate(case):
             res = dict(x=xs, y=np.asarray(t["forward"](xs), dtype=float))
             if t.get("inverse") is not None:
                 res["xinv"] = np.asarray(t["inverse"](res["y"]), dtype=float)
+                # the inverse at the exact target quantiles (independent of the forward transform)
+                res["xinv_ref"] = np.asarray(t["inverse"](I.ref_quantile(I.ref_dist(fam, par), xs)), dtype=float)
             if t.get("jac") is not None:
                 v, j, ja = t["jac"](xs)
                 res.update(linval=v, jac=j, jacadj=ja)
@@ -313,6 +315,19 @@ def judge(case, ev):
             if badx.any():
                 i = int(np.argmax(np.where(badx, np.abs(xi - x) / tolx, 0)))
                 return (f"{fam}/{impl} {par}: inverse(T(x))={xi[i]!r} for x={x[i]!r} (tol {tolx[i]:.2e})", sig(impl, "inverse"))
+            # inverse(Q_target(p)) = Phi^-1(p): tolerance of the forward check mapped through dx/dy = pdf(y)/phi(x)
+            from scipy.stats import norm as _n
+            with warnings.catch_warnings():
+                warnings.simplefilter("ignore")
+                slope = _n.pdf(x) / d.pdf(r)
+            tolr = 2 * tolx + 2 * tol / np.where(slope > 0, slope, np.inf)
+            tolr = np.where(np.isfinite(tolr), tolr, np.inf)
+            xr = res["xinv_ref"]
+            badr = ~(np.abs(xr - x) <= tolr)
+            if badr.any():
+                i = int(np.argmax(np.where(badr, np.abs(xr - x) / tolr, 0)))
+                return (f"{fam}/{impl} {par}: inverse(Q(p))={xr[i]!r} but Phi^-1(p)={x[i]!r} at y={r[i]!r} (tol {tolr[i]:.2e})",
+                        sig(impl, "inverse-ref"))
         if "jac" in res:
             J, tolj = jac_reference(fam, impl, par, x)
             j, ja, lv = res["jac"], res["jacadj"], res["linval"]
